@@ -149,3 +149,215 @@ Section C09.
     | (s2, r) => rows ++ [res_row r true] ++ [[8]]
     end.
 End C09.
+
+(* ---------- C01 / C10 / C12: reading histories over any top-layer stream ---------- *)
+From MLA Require Import Reader InstGcm.
+From MLA.Concrete Require Aes.
+
+Section Hist.
+  Variable k : consts.
+  Variable S : Stream.
+  Notation TS := Src.BT_FileStart. Notation TC := Src.BT_FileContent.
+  Notation TA := Src.BT_EndOfArchiveData. Notation TE := Src.BT_EndOfFile.
+  Let FN := cFNMAX k.
+
+  Notation get_hash := (get_hash FN TS TC TA TE S).
+  Notation get_file := (get_file FN TS TC TA TE S).
+  Notation bread := (bread FN TS TC TA TE S).
+  Notation linear_extract := (linear_extract FN TS TC TA TE S).
+
+  Definition err_row {A} (r : res A) : list N :=
+    match r with Ok _ => [0] | Err _ => [1] | Crash _ => [2] end.
+
+  (* reads with the given buffer sizes (one Read::read each); the last size repeats until the
+     end of the file when `to_end` *)
+  Fixpoint do_reads (fuel : nat) (b : bstate S) (sizes : list N) (to_end : bool)
+    : bstate S * list (list N) :=
+    match fuel with
+    | O => (b, [[9]])
+    | Datatypes.S fuel' =>
+      match sizes with
+      | [] => (b, [])
+      | n :: rest =>
+        match bread b n with
+        | (b1, Ok d) =>
+          let again := match rest with [] => to_end && negb (len d =? 0) | _ => true end in
+          let sizes' := match rest with [] => [n] | _ => rest end in
+          if again then let '(b2, rows) := do_reads fuel' b1 sizes' to_end in (b2, (0 :: d) :: rows)
+          else (b1, [0 :: d])
+        | (b1, Err _) => (b1, [[1]])
+        | (b1, Crash _) => (b1, [[2]])
+        end
+      end
+    end.
+
+  Fixpoint sort_names (l : list bytes) : list bytes :=
+    match l with
+    | [] => []
+    | x :: r => (fix ins (x : bytes) (l : list bytes) : list bytes :=
+                   match l with [] => [x] | h :: t => if bytes_leb x h then x :: l else h :: ins x t end)
+                x (sort_names r)
+    end.
+
+  Definition pieces_for (name : bytes) (ps : list (bytes * bytes)) : bytes :=
+    concat (map snd (filter (fun p => bytes_eqb (fst p) name) ps)).
+
+  (* one history op; names are referred to by index in `names` *)
+  Definition hist_op (fuel : nat) (names : list bytes) (r : rstate S) (op : list N)
+    : rstate S * list (list N) :=
+    let name_at i := nth (N.to_nat i) names [] in
+    match op with
+    | [0] => (r, map (fun n => 5 :: n) (sort_names (list_files S r)))
+    | [1; i] =>
+      match get_hash r (name_at i) with
+      | (r1, Ok (Some h)) => (r1, [0 :: h])
+      | (r1, Ok None) => (r1, [[4]])
+      | (r1, x) => (r1, [err_row x])
+      end
+    | 2 :: i :: sizes =>
+      match get_file r (name_at i) with
+      | (r1, Ok (Some (b, size))) =>
+        let '(b1, rows) := do_reads fuel b sizes false in
+        (mkR (b_src b1) (r_meta r1), [7; size] :: rows)
+      | (r1, Ok None) => (r1, [[4]])
+      | (r1, x) => (r1, [err_row x])
+      end
+    | [3; i; n] =>
+      match get_file r (name_at i) with
+      | (r1, Ok (Some (b, size))) =>
+        let '(b1, rows) := do_reads fuel b [n] true in
+        (mkR (b_src b1) (r_meta r1), [7; size] :: rows)
+      | (r1, Ok None) => (r1, [[4]])
+      | (r1, x) => (r1, [err_row x])
+      end
+    | 4 :: chosen =>
+      let export := map name_at chosen in
+      match linear_extract fuel r export with
+      | Ok ps => (r, [0] :: map (fun n => 6 :: pieces_for n ps) export)
+      | x => (r, [err_row x])
+      end
+    | _ => (r, [[9; 9]])
+    end.
+
+  Fixpoint hist_ops (fuel : nat) (names : list bytes) (r : rstate S) (ops : list (list N)) : list (list N) :=
+    match ops with
+    | [] => []
+    | op :: rest => let '(r1, rows) := hist_op fuel names r op in rows ++ [[88]] ++ hist_ops fuel names r1 rest
+    end.
+
+  Definition hist_run (fuel : nat) (s0 : st S) (names : list bytes) (ops : list (list N)) : list (list N) :=
+    match ropen S s0 with
+    | Ok r => [0] :: hist_ops fuel names r ops
+    | x => [err_row x]
+    end.
+End Hist.
+
+(* layer-less archive body *)
+Definition hist_plain (k : consts) (body : bytes) (names : list bytes) (ops : list (list N)) : list (list N) :=
+  hist_run k (Cursor body) (N.to_nat (len body) + 16) 0 names ops.
+
+(* encrypted archive body, concrete AES-256-GCM *)
+Definition hist_enc (k : consts) (key nonce8 body : bytes) (names : list bytes) (ops : list (list N)) : list (list N) :=
+  let rk := Aes.aes256_expand key in
+  let CH := cCHUNK k in let TG := cTAG k in
+  let nchunks := N.to_nat (len body / (CH + TG) + 2) in
+  let tab := gcm_tab rk nonce8 CH nchunks in
+  let ks := gcm_ks tab in let tagc := gcm_tagc rk nonce8 in
+  match enc_open CH TG ks tagc (Cursor body) 0 with
+  | (s, Ok _) => hist_run k (EncReader CH TG ks tagc (Cursor body)) (N.to_nat (len body) + 16) s names ops
+  | (_, Err _) => [[1; 1]]
+  | (_, Crash _) => [[2; 1]]
+  end.
+
+(* ---------- C02 / C04 / C05: repair ---------- *)
+From MLA Require Import Repair.
+
+Definition fstatus_code (f : fstatus) : N :=
+  match f with
+  | FNoError => 0 | FEofNextBlock => 1 | FIoNextBlock => 2 | FErrNextBlock => 3
+  | FIdReuse => 4 | FIdClosed => 5 | FNameReuse => 6 | FContentUnknown => 7 | FEofUnknown => 8
+  | FErrInFile => 9 | FHashDiffers => 10 | FInternal => 11 | FEndOfData => 12
+  end.
+
+Section RepairRun.
+  Variable k : consts.
+  Variable S : Stream.
+  Notation TS := Src.BT_FileStart. Notation TC := Src.BT_FileContent.
+  Notation TA := Src.BT_EndOfArchiveData. Notation TE := Src.BT_EndOfFile.
+
+  Definition full_ops (n : nat) : list (list N) :=
+    [0] :: flat_map (fun i => [[1; N.of_nat i]; [3; N.of_nat i; 100000]]) (seq 0 n).
+
+  (* rows: [status; #unfinished], unfinished names sorted, [88], then the repaired archive
+     (layer-less body) re-read by the reader model: list, and hash + full read of every file *)
+  Definition repair_run (fuel : nat) (s0 : st S) : list (list N) :=
+    match repair (cFNMAX k) (cCACHE k) TS TC TA TE Sha256.sha256 S fuel s0 w_init with
+    | Ok (status, unfinished, out) =>
+      let names := sort_names (map fst (w_files out)) in
+      [fstatus_code status; len unfinished] :: map (fun n => 5 :: n) (sort_names unfinished)
+        ++ [[88]] ++ hist_plain k (w_out out) names (full_ops (length names))
+    | Err _ => [[1]]
+    | Crash _ => [[2]]
+    end.
+End RepairRun.
+
+Definition repair_plain (k : consts) (body : bytes) : list (list N) :=
+  repair_run k (Cursor body) (N.to_nat (len body) + 16) 0.
+
+(* the fail-safe encryption reader as a (read-only) stream *)
+Definition FsEnc (CH TG : N) (ks : N -> N -> N) (tagc : N -> bytes -> bytes) (unauth : bool) (S : Stream) : Stream :=
+  {| st := estate S;
+     rd := fs_read CH TG ks tagc S unauth;
+     sk := fun s _ => (s, Err EInval) |}.
+
+Definition repair_enc (k : consts) (key nonce8 body : bytes) (unauth : N) : list (list N) :=
+  let rk := Aes.aes256_expand key in
+  let CH := cCHUNK k in let TG := cTAG k in
+  let nchunks := N.to_nat (len body / (CH + TG) + 2) in
+  let tab := gcm_tab rk nonce8 CH nchunks in
+  let ks := gcm_ks tab in let tagc := gcm_tagc rk nonce8 in
+  match fs_open CH TG ks (Cursor body) 0 with
+  | (s, Ok _) => repair_run k (FsEnc CH TG ks tagc (unauth =? 1) (Cursor body)) (N.to_nat (len body) + 16) s
+  | (_, Err _) => [[1]]
+  | (_, Crash _) => [[2]]
+  end.
+
+(* ---------- C16: extraction paths (mlar extract) on the model file system ---------- *)
+From MLA Require Path.
+
+Section C16.
+  Import Path.
+  Definition c16_out : path := [[111; 117; 116]].
+  Definition c16_fs0 : fs := [(c16_out, Dir)].
+  Definition c16_content (i : nat) : bytes := [N.of_nat i; 1; 2; 3].
+  Fixpoint join_path (p : path) : bytes :=
+    match p with [] => [] | [c] => c | c :: r => c ++ 47 :: join_path r end.
+  Fixpoint dedup_paths (l : list path) (seen : list path) : list path :=
+    match l with
+    | [] => []
+    | p :: r => if existsb (path_eqb p) seen then dedup_paths r seen else p :: dedup_paths r (p :: seen)
+    end.
+  Definition files_under (f : fs) : list (bytes * bytes) :=
+    flat_map (fun p =>
+      if prefixb c16_out p then
+        match lookup f p with
+        | Some (File c) => [(join_path (skipn (length c16_out) p), c)]
+        | _ => []
+        end
+      else []) (dedup_paths (map fst f) []).
+  Fixpoint ins_row (e : bytes * bytes) (l : list (bytes * bytes)) : list (bytes * bytes) :=
+    match l with
+    | [] => [e]
+    | h :: t => if bytes_leb (fst e) (fst h) then e :: l else h :: ins_row e t
+    end.
+  Definition c16_run (_ : consts) (form : N) (names : list bytes) (order : list N) (listed : N) : list (list N) :=
+    let member i := (nth i names [], c16_content i) in
+    let '(f, ok) :=
+      if form =? 0 then
+        extract_linear c16_out names (map (fun i => member (N.to_nat i)) order) c16_fs0
+      else if form =? 1 then
+        extract_all c16_out (map member (seq 0 (length names))) c16_fs0
+      else
+        extract_all c16_out [member (N.to_nat listed)] c16_fs0 in
+    [if ok then 1 else 0] :: map (fun e => fst e ++ 256 :: snd e) (fold_right ins_row [] (files_under f)).
+End C16.
